@@ -10,7 +10,7 @@ import Ctrmml.Spec.Timeline
 import Ctrmml.Proofs.CodecBreak
 import Ctrmml.Proofs.CodecTrack
 import Ctrmml.Proofs.CodecCall
-import Ctrmml.Proofs.SongChunk
+import Ctrmml.Proofs.SongFragment
 namespace Ctrmml.C02
 open Ctrmml Ctrmml.Mds Ctrmml.Seq Tables
 
@@ -394,5 +394,26 @@ theorem C02_song_roundtrip_partial (song : Song) (d : DataInfo) (vol : Option St
   · intro maxTicks hmax
     obtain ⟨n, hn⟩ := run_of_reach (maxTicks := maxTicks) hreach hfin (by rw [hout]; simpa using hmax)
     exact ⟨n, fun fuel hf => by rw [hn fuel hf, hout]; simp⟩
+
+/-! non-vacuity of the hypotheses of `C02_song_roundtrip_partial` / `C03_song_wellformed_partial`: a
+song with a loop point, a counted loop with two breaks and a call inside it, and a subroutine
+(`A c L [d / *100 / e]2`, `*100 f r`).  The hypotheses on the song are decided in the kernel through
+the executable predicate `Fragment.plainSongB` (sound: `SongTop.plainSong_of_B`).  The remaining
+hypothesis, `MdsFile.construct … = .ok b` with a chunk below 64 KiB, is not evaluated in the kernel
+(the mutually recursive writer does not unfold there): on every correspondence run the judge
+evaluates `construct` and `Fragment.inFragment` on each generated song, compares the chunk with the
+real bytes, and reports the songs that are instances as `ok proved-fragment`. -/
+def exNote (p : Int) (on off : Nat) : Event := { type := ev_NOTE, param := p, on := on, off := off }
+def exCmd (ty : Nat) (p : Int) : Event := { type := ty, param := p, on := 0, off := 0 }
+def exRoot : List Event :=
+  [exNote 36 24 0, exCmd ev_SEGNO 0, exCmd ev_LOOP_START 0, exNote 38 12 12, exCmd ev_LOOP_BREAK 0, exCmd ev_JUMP 100,
+   exCmd ev_LOOP_BREAK 0, exNote 40 24 0, exCmd ev_LOOP_END 2]
+def exSong : Song := { tracks := [(0, exRoot), (100, [exNote 41 6 6, { type := ev_REST, param := 0, on := 0, off := 3 }])] }
+
+example : SongTop.PlainSong exSong := SongTop.plainSong_of_B (by decide)
+example : Timeline.inDomain exSong exRoot = true ∧ SongSplit.segCount exRoot ≤ 1 ∧ (0, exRoot) ∈ exSong.tracks := by decide
+example : (Timeline.expected exSong [] exRoot).toOption.map (·.length) = some 199 := by
+  decide +kernel
+example : PlatformClean {} := by intro k evs h; simp at h
 
 end Ctrmml.C02
